@@ -56,6 +56,31 @@ CHECKS = {
         technique="TLA+ spec (Calls.tla) + TLC exhaustive; TLC-generated behaviours replayed on real code; TLC trace validation"),
 }
 
+CHECKS["C14"] = dict(
+    engine="config",
+    category="model_checking",
+    text="Config.tla gives every public constructor (WithNodeList/WithNodeMap/WithNodeIDs/And/Except/WithoutNodes/"
+         "WithNewNodes) its set of allowed outcomes over a pool and a sequence of configurations; TLC explores all "
+         "operation sequences up to depth 2 (thorough 3) over an address universe with an alternative spelling and a real "
+         "FNV-1a colliding pair, checking the invariants and OperandsUnchanged/PoolOnlyGrows; every sequence (thorough: "
+         "150000 seeded depth-3 sequences) is executed on a real manager through the generated wrappers and each logged "
+         "operation (outcome, listing, sizes, addresses, node identity, all earlier configurations, pool) is validated by "
+         "TLC against Outcomes(op).",
+    ref="DESIGN.md 5 C14, 3.4",
+    note="Trusted: TLC, the driver's projection of the abstract state. No network is involved (WithNoConnect).",
+    technique="TLA+ spec (Config.tla) + TLC exhaustive path enumeration; paths executed on real code; TLC trace validation")
+CHECKS["C19"] = dict(
+    engine="sort",
+    category="model_checking",
+    text="Sort.tla defines the meaning of the keys ID/Port/LastNodeError, lexicographic order, Sorted and StrictWeak; TLC "
+         "checks that the specified keys and every key sequence are strict weak orders and enumerates the complete input "
+         "space (all key sequences of length 1..3, all slices of length 0..3 (thorough 4) over a 6-node universe); the real "
+         "OrderedBy(...).Sort and the real key functions run on every case and TLC validates every result (Sorted) and every "
+         "comparison (equal to the specified key).",
+    ref="DESIGN.md 5 C19, 3.4",
+    note="Trusted: TLC; the universe is 6 nodes built through the public constructors (VerifSetLastErr for the error state).",
+    technique="TLA+ spec (Sort.tla) + TLC enumeration of the full bounded input space; real code run on every case; TLC validation")
+
 PENDING = {
     "C03": "check under construction (Fifo layer, DESIGN.md 11 step 3)",
     "C04": "check under construction (Fifo layer, DESIGN.md 11 step 3)",
@@ -90,6 +115,10 @@ def main():
             "add_only": True,
         },
         "engines": [
+            {"name": "config", "path": "tools/check_config.py", "serves_properties": ["C14"],
+             "kind_free_text": "TLC on specs/Config.tla (ConfigGen path enumeration, ConfigTrace validation) + drive config"},
+            {"name": "sort", "path": "tools/check_sort.py", "serves_properties": ["C19"],
+             "kind_free_text": "TLC on specs/Sort.tla (SortGen enumeration, SortTrace validation) + drive sort"},
             {"name": "calls", "path": "tools/check_calls.py",
              "serves_properties": ["C01", "C02", "C06", "C11"],
              "kind_free_text": "TLC on specs/Calls.tla (CallsMC exhaustive, CallsGen behaviour generator, CallsTrace trace "
